@@ -107,7 +107,9 @@ def _decoded(op):
     return "".join(out)
 
 def both_parts(ob, facts, failures, coverage, tier, seed):
-    return ffi_part(ob, facts, failures, coverage, tier, seed) + parsers_part(ob, facts, failures, coverage, tier, seed)
+    from . import c07hist       # refused calls over whole histories (Props/C06.lean refused_calls_invisible_partial)
+    return ffi_part(ob, facts, failures, coverage, tier, seed) + parsers_part(ob, facts, failures, coverage, tier, seed) + \
+        c07hist.engine_refused(ob, facts, failures, coverage, tier, seed)
 
 def run(tier, seed, t0, H):
     return check_world.run(PROP, tier, seed, t0, H, second=check_wrap.extra, second_engine=both_parts)
